@@ -394,6 +394,38 @@ def run(ctx: Ctx, rs: RuleSet, tier: str):
                  'module runs but yields a different configuration)',
                  ctx.loc(f, c))
 
+  # ---- tags: with_tags only means something inside an auto_config function
+  rule = 'EXH.tags-expressible'
+  rs.declare(rule, 'auto_config.with_tags(...) is emitted only by the '
+             'auto_config generator; both generators read the argument tags', 3)
+  for modname in sorted(ctx.p.modules):
+    if not modname.startswith(CG + '.') or modname.endswith('_test'):
+      continue
+    mod = ctx.mod(modname)
+    for f in mod.all_funcs:
+      for c in ctx.calls(f):
+        if ctx.p.resolve(c.func, f) == f'{AC}.code_ir.WithTagsCall':
+          ok = modname.startswith(AC + '.')
+          rs.check(ok, rule, f'{f.qualname}:WithTagsCall',
+                   'built by a pass of the auto_config generator' if ok else
+                   'a pass of the plain fdl.Config generator builds a '
+                   'WithTagsCall node, emitted as auto_config.with_tags(value, '
+                   'tags): outside an auto_config function that call returns '
+                   'the bare value (and the generated module does not import '
+                   'auto_config), so the tags are lost or the module fails '
+                   'with NameError', ctx.loc(f, c))
+  for q in (f'{AC}.make_symbolic_references.'
+            'replace_callables_and_configs_with_symbols.traverse',
+            f'{CG}.newcg_symbolic_references.'
+            'replace_callables_and_configs_with_symbols.traverse'):
+    f = ctx.func(q)
+    reads = [n for n in walk_function(f.node) if isinstance(
+        n, ast.Attribute) and n.attr == '__argument_tags__']
+    rs.check(bool(reads), rule, f'{q}:reads-tags',
+             'the pass that turns Buildables into calls reads their argument '
+             'tags' if reads else 'argument tags are never read: the emitted '
+             'code silently drops them', ctx.loc(f, f.node))
+
   # ---- references to classes / functions use the qualified name
   rule = 'LIT.qualified-reference'
   rs.declare(rule, 'source references to importable objects are built from '
